@@ -107,6 +107,10 @@ def run(ctx):
                 bad("flip does not negate exactly that coordinate (or changes confidences / missing)", {"axis": axis})
             if not same_view(arrays(pose.flip(axis).flip(axis)), src):
                 bad("flip is not its own inverse", {"axis": axis})
+        for a in range(D):                                       # Props/C15.flip_comm: the order of two flips does not matter
+            for b in range(a + 1, D):
+                if not same_view(arrays(pose.flip(a).flip(b)), arrays(pose.flip(b).flip(a))):
+                    bad("flips of two axes do not commute", {"axes": [a, b]})
         # ---- matmul
         eye = np.eye(D, dtype=np.float32)
         if not same_view(arrays(_P(pose.body).matmul(eye)), src):
